@@ -32,7 +32,7 @@ def one(pd):
         shutil.rmtree(scratch, ignore_errors=True); shutil.rmtree(out, ignore_errors=True)
 patches = sorted(glob.glob(os.path.join(src, "*", "patch.diff")), key=lambda p: int(os.path.basename(os.path.dirname(p))))
 bad = 0
-with ThreadPoolExecutor(max_workers=3) as ex:
+with ThreadPoolExecutor(max_workers=2) as ex:
     for k, res in ex.map(one, patches):
         print(f"edit {k}: {'clean' if not res else 'ALARMS'}", flush=True)
         for l in res:
